@@ -71,6 +71,9 @@ var c18Targeted = []string{
 	"SELECT count(NULL) FROM t0", "SELECT avg(NULL) FROM t0", "SELECT * FROM t0 WHERE avg(a) > 1", "SELECT * FROM t0 ORDER BY count(*)", "SELECT * FROM t0 GROUP BY a", "SELECT count(*) FROM t0 ORDER BY a",
 	"SELECT * FROM t0 LIMIT 1 LIMIT 2", "SELECT * FROM t0 LIMIT 3 OFFSET 1 LIMIT 2", "SELECT * FROM t0 OFFSET 1 OFFSET 2", "SELECT * FROM t0 OFFSET 1 LIMIT 2 OFFSET 3", "SELECT * FROM t0 ORDER BY a ORDER BY b",
 	"SELECT * FROM t0 WHERE a = 1 WHERE a = 2", "SELECT * FROM t0 GROUP BY a GROUP BY b", "SELECT a FROM t0 FROM t1", "UPDATE t0 SET a = 1 SET d = 2", "INSERT INTO t0 VALUES (1) VALUES (2)",
+	"SELECT count(*), a = 1 FROM t0 WHERE a = 99", "SELECT a = 1, count(*) FROM t2", "SELECT count(*), b = 'x' FROM t0 WHERE a > 1000", "SELECT avg(a), a FROM t2", "SELECT count(*), a FROM t0 WHERE a = 99",
+	"SELECT count(*), 1 = 1 FROM t2", "SELECT count(a), a < d FROM t0 WHERE d > 1000", "SELECT a, count(*), b = b FROM t2 GROUP BY a", "SELECT count(*), t2.a = t1.a FROM t2 JOIN t1 ON t2.a = t1.a",
+	"INSERT INTO t0 VALUES", "INSERT INTO t0 (a, b) VALUES", "INSERT INTO nosuch VALUES", "INSERT INTO t0 VALUES ;", "UPDATE t0 SET", "DELETE FROM t0 WHERE", "SELECT FROM t0", "SELECT * FROM t0 ORDER BY", "SELECT * FROM t0 GROUP BY",
 	"SELECT * FROM t0 LIMIT a", "SELECT * FROM t0 LIMIT 'x'", "SELECT * FROM t0 OFFSET NULL", "INSERT INTO t0 VALUES (avg(a))", "INSERT INTO t0 VALUES (a)", "INSERT INTO t0 VALUES (NULL, NULL, NULL, NULL)",
 	"UPDATE t0 SET a = NULL", "UPDATE t0 SET a = count(*)", "UPDATE t0 SET a = a", "DELETE FROM t0 WHERE count(*) > 1", "SELECT * FROM t0 WHERE NULL", "SELECT * FROM t0 WHERE a = NULL", "SELECT NULL FROM t0", "SELECT NULL",
 	"USE nosuch", "USE d1", "CREATE DATABASE d1", "SHOW DATABASES", "SELECT count(*), avg(a) FROM t2", "SELECT a, count(*) FROM t2 GROUP BY a", "SELECT avg(a) FROM t0 WHERE a > 100",
